@@ -37,7 +37,8 @@ META = {
     "level_text": "Static inverse-pair check of the codec parameters shared by encoder and decoder, for all molecules.",
     "level_note": "Clause-level: codec agreement only. Graph preservation over all SMILES spellings (parser, traversal) is "
                   "value-level and not decided.",
-    "technique": "affine summary extraction at call sites (abstract interpretation) + composition with the decoder's formulas",
+    "technique": "affine summary extraction at call sites (abstract interpretation) + composition with the decoder's formulas + path-sensitive "
+                 "abstract interpretation of the atom readers / printer (numbers read and written unchanged) + must-check-result dataflow (kekulised before translated)",
 }
 
 
